@@ -14,6 +14,7 @@ import (
 	"github.com/modernizing/coca/pkg/application/todo"
 	"github.com/modernizing/coca/pkg/application/todo/astitodo"
 
+	"verifharness/adapter/common"
 	"verifharness/gen/commentgen"
 	"verifharness/oracle"
 	"verifharness/run"
@@ -44,7 +45,7 @@ var Check = &run.Check{
 		"and line / block / hash comments generated from a grammar: empty, blanks only, one character, plain text, marker later in the text (after a word, glued to 1-2 characters, after punctuation, mid-line of a later block line, directly after a character that opens another kind of comment: `//# FIXME`, `#/ TODO`, `#* TODO`, `#// todo`, `/*# todo */`, `/*/ fixme */`), " +
 		"and marker comments = [blanks] (TODO|FIXME in 10 letter-case variants) followed by nothing | ':' | blank msg | ':' msg | ': ' msg | '(name)' | '(name):' | '(name) ' msg | '(name): ' msg | '(name):' msg, " +
 		"block comments optionally multi-line with or without ' * ' decoration, 1 in 4 of the multi-line-capable ones with 1-3 line breaks between `/*` and the marker word (start line = opener's line); crash-only marker comments whose text after the marker (and optional colon/blanks) opens a '(' that is never closed in the comment (`// TODO (rework the`, `/* FIXME: (half */`, `# todo(`; entry optional, a panic is a violation); comments alone on a line, after code (glued or not), between tokens, two on one line; " +
-		"filter = subset number (index mod 32) of the 5-extension list; executed through todo.TodoApp.AnalysisPath(dir, exts) in-process and through `coca todo -p DIR -e exts` (simple-todos.json, count line and table) for every Nth case; " +
+		"filter = subset number (index mod 32) of the 5-extension list; executed through todo.TodoApp.AnalysisPath(dir, exts) in-process (1 in 6 with the directory named dir/zzcwd/.., 1 in 6 dir/) and through `coca todo -p DIR -e exts` (simple-todos.json parsed strictly, count line and table) for every Nth case, DIR spelled in rotation abs | abs/ | rel | ./rel | rel/ | . | .. | sub/.. | ../src from the matching working directory, every second CLI case preceded by a `coca todo` run over a larger tree in the SAME working directory (stale coca_reporter); files also live under dot-directories (.github/, .config/tool/, a/.hidden/) and carry dot names (.eslintrc.js); " +
 		"oracle: multiset of (file, start line, assignee, message with '*' and blank runs collapsed) == planted marker comments of the selected files; " +
 		"non-trivial = at least 2 planted marker comments in selected files and at least one decoy carrying the marker word (literal, later mention, identifier) in a selected file; " +
 		"distinct = hash of (per file: extension + sequence of element shapes, subset number, boundary)",
@@ -198,6 +199,10 @@ func runCase(c *run.Ctx, o *run.Outcome) {
 		}
 		truth.Selected[f.Rel] = true
 		o.Count("files_selected", 1)
+		if strings.HasPrefix(f.Rel, ".") || strings.Contains(f.Rel, "/.") {
+			o.Count("selected_files_under_dot_directories_or_dot_named", 1)
+			o.Count("marker_comments_under_dot_paths", len(f.Planted))
+		}
 		if f.LongLine > 0 {
 			o.Count("selected_files_with_first_line_over_64KiB", 1)
 			o.Count("marker_comments_below_a_64KiB_line", len(f.Planted))
@@ -263,61 +268,115 @@ func runCase(c *run.Ctx, o *run.Outcome) {
 	o.Witness = witness
 
 	var observed []oracle.TodoEntry
+	rootKind := "plain"
 	if useCLI {
 		o.Count("cli_cases", 1)
-		arg := "src"
-		if r.Bool() {
-			arg = src
-		}
+		nth := c.Index / cliEvery(c.Tier)
+		// the scanned directory is named in one of nine legal ways (absolute, relative, ".", "..", "sub/..", "../src", trailing slash)
+		cwd, arg, kind := common.SpellRoot(nth, src, dir)
+		rootKind = kind
+		o.Count("cli_root_spelled_"+kind, 1)
+		o.Seen("cli_root_spellings", kind)
 		args := []string{"todo", "-p", arg, "-e", strings.Join(exts, ",")}
-		witness["boundary"] = "coca " + strings.Join(args, " ")
-		res := runCLI(c.CocaBin, dir, args...)
+		witness["boundary"] = "coca " + strings.Join(args, " ") + "   (cwd " + strings.TrimPrefix(cwd, dir) + ", root spelled " + kind + ")"
+		secondRun := nth%2 == 0
+		if secondRun {
+			// the report directory is not fresh: an earlier `coca todo` in the SAME working directory scanned a larger tree
+			// (this case's files twice over plus one more TODO), so its simple-todos.json is longer than the one asserted
+			first := filepath.Join(dir, "first")
+			for i := range tree.Files {
+				f := &tree.Files[i]
+				for _, sub := range []string{"", "dup"} {
+					p := filepath.Join(first, sub, filepath.FromSlash(f.Rel))
+					os.MkdirAll(filepath.Dir(p), 0o755)
+					ioutil.WriteFile(p, []byte(f.Text), 0o644)
+				}
+			}
+			ioutil.WriteFile(filepath.Join(first, "zzextra"+exts[0]), []byte("// TODO(first): entry of the earlier run only\n/* FIXME: and another one of the earlier run */\n"), 0o644)
+			pre := runCLI(c.CocaBin, cwd, "todo", "-p", first, "-e", strings.Join(exts, ","))
+			if pre.TimedOut {
+				o.SetInconclusive("cli watchdog")
+				return
+			}
+			if fi, err := os.Stat(filepath.Join(cwd, "coca_reporter", "simple-todos.json")); err == nil {
+				o.Count("cli_second_run_in_same_cwd", 1)
+				o.Count("cli_bytes_of_earlier_report", int(fi.Size()))
+				witness["earlier_run_in_same_cwd"] = "coca todo -p " + first + " -e " + strings.Join(exts, ",")
+			} else {
+				secondRun = false
+			}
+		}
+		how := "@root:" + kind
+		if secondRun {
+			how += "+second-run-in-same-cwd"
+		}
+		res := runCLI(c.CocaBin, cwd, args...)
 		if res.TimedOut {
 			o.SetInconclusive("cli watchdog")
 			return
 		}
 		if strings.Contains(res.Stderr, "panic:") || strings.Contains(res.Stderr, "fatal error:") {
 			o.Count("panics", 1)
-			o.Violate("panic@"+panicSite(res.Stderr), "`coca todo` crashed (exit %d): %s", res.ExitCode, firstLine(res.Stderr[strings.Index(res.Stderr, "panic:")+0:]))
+			o.Violate("panic@"+panicSite(res.Stderr), "`coca todo` crashed (exit %d, root spelled %s): %s", res.ExitCode, kind, firstLine(res.Stderr[strings.Index(res.Stderr, "panic:")+0:]))
 			return
 		}
 		if res.ExitCode != 0 {
-			o.Violate("cli-exit", "`coca todo` exit %d: %s", res.ExitCode, firstLine(res.Stderr))
+			o.Violate("cli-exit"+how, "`coca todo` exit %d: %s", res.ExitCode, firstLine(res.Stderr))
 			return
 		}
-		b, err := ioutil.ReadFile(filepath.Join(dir, "coca_reporter", "simple-todos.json"))
+		b, err := ioutil.ReadFile(filepath.Join(cwd, "coca_reporter", "simple-todos.json"))
 		if err != nil {
-			o.Violate("cli-no-output", "`coca todo` wrote no simple-todos.json: %v", err)
+			o.Violate("cli-no-output"+how, "`coca todo` wrote no simple-todos.json: %v", err)
 			return
 		}
 		var js []jsonTodo
 		if err := json.Unmarshal(b, &js); err != nil {
-			o.Violate("cli-json-malformed", "simple-todos.json does not parse: %v", err)
+			// json.Unmarshal is strict about the whole file: anything after the top-level value is an error
+			sig := "cli-json-malformed"
+			if secondRun {
+				sig = "cli-json-malformed/second-run-in-same-cwd"
+			}
+			tail := string(b)
+			if len(tail) > 160 {
+				tail = "…" + tail[len(tail)-160:]
+			}
+			o.Violate(sig, "simple-todos.json (%d bytes, root spelled %s) does not parse: %v; end of file: %q", len(b), kind, err, tail)
 			return
 		}
 		var jsonRows []string
 		for _, t := range js {
-			observed = append(observed, oracle.TodoEntry{File: rel(arg, t.Filename), Line: t.Line, Assignee: t.Assignee, Message: t.Message})
+			observed = append(observed, oracle.TodoEntry{File: rel(src, common.AbsFrom(cwd, t.Filename)), Line: t.Line, Assignee: t.Assignee, Message: t.Message})
 			jsonRows = append(jsonRows, t.Filename+":"+strconv.Itoa(t.Line))
 		}
 		// the printed report carries the same entries: count line and one table row per entry
 		count, rows, ok := tableRows(res.Stdout)
 		if !ok {
-			o.Violate("cli-no-count-line", "`coca todo` printed no 'Todos Count' line: %s", firstLine(res.Stdout))
+			o.Violate("cli-no-count-line"+how, "`coca todo` printed no 'Todos Count' line: %s", firstLine(res.Stdout))
 		} else {
 			if count != len(js) {
-				o.Violate("cli-count-differs", "'Todos Count %d' printed, simple-todos.json has %d entries", count, len(js))
+				o.Violate("cli-count-differs"+how, "'Todos Count %d' printed, simple-todos.json has %d entries", count, len(js))
 			}
 			sort.Strings(rows)
 			sort.Strings(jsonRows)
 			if strings.Join(rows, "\n") != strings.Join(jsonRows, "\n") {
-				o.Violate("cli-table-differs", "table rows (file:line) %v differ from simple-todos.json %v", rows, jsonRows)
+				o.Violate("cli-table-differs"+how, "table rows (file:line) %v differ from simple-todos.json %v", rows, jsonRows)
 			}
 			o.Count("cli_table_rows_compared", len(rows))
 		}
 	} else {
+		// in-process the same directory is also named with a trailing slash and through an empty sub-directory + ".."
+		root := src
+		switch r.Intn(6) {
+		case 0:
+			os.MkdirAll(filepath.Join(src, "zzcwd"), 0o755)
+			root, rootKind = src+"/zzcwd/..", "sub-dotdot"
+		case 1:
+			root, rootKind = src+"/", "abs-slash"
+		}
+		o.Count("inproc_root_spelled_"+rootKind, 1)
+		witness["boundary"] = "todo.TodoApp.AnalysisPath(" + strings.TrimPrefix(root, dir+"/") + ", exts)"
 		var res []*astitodo.TODO
-		panicked, val, site := run.Guard(func() { res = todo.NewTodoApp().AnalysisPath(src, exts) })
+		panicked, val, site := run.Guard(func() { res = todo.NewTodoApp().AnalysisPath(root, exts) })
 		if panicked {
 			o.Count("panics", 1)
 			o.Violate("panic@"+site, "TodoApp.AnalysisPath panicked: %s", val)
@@ -328,8 +387,16 @@ func runCase(c *run.Ctx, o *run.Outcome) {
 				o.Violate("nil-entry", "AnalysisPath returned a nil entry")
 				continue
 			}
-			observed = append(observed, oracle.TodoEntry{File: rel(src, t.Filename), Line: t.Line, Assignee: t.Assignee, Message: t.Message})
+			observed = append(observed, oracle.TodoEntry{File: rel(src, filepath.Clean(t.Filename)), Line: t.Line, Assignee: t.Assignee, Message: t.Message})
 		}
+	}
+	if required > 0 && len(observed) == 0 && rootKind != "plain" {
+		// nothing at all came back although marker comments were planted: say how the directory was named
+		bd := "inproc"
+		if useCLI {
+			bd = "cli"
+		}
+		o.Violate("empty-report/"+bd+"@root:"+rootKind, "%d marker comments planted in selected files, the report is empty; the directory was named %v", required, witness["boundary"])
 	}
 	witness["observed"] = observed
 	o.Count("events_observed", len(observed))
